@@ -1,10 +1,9 @@
 SPECIFICATION TSpec
 CONSTANT MaxKey = 5
 CONSTANT MaxSize = 6
-INVARIANT EveryEntryOnceInOrder
 INVARIANT PageLen
 INVARIANT FlagsExact
+INVARIANT EveryEntryOnceInOrder
 INVARIANT ErrorsOnlyForBadArgs
-INVARIANT RejectsRefused
 POSTCONDITION TraceAccepted
 CHECK_DEADLOCK FALSE
